@@ -305,8 +305,8 @@ impl<L: Language, N: Analysis<L>> EGraph<L, N> {
                     return;
                 }
 
-                // or is it the opposite direction? (flip a with b)
-                let perm = a.m.compose(&b.m.inverse());
+                // `proof` shows id[a.m] = id[b.m], i.e. id[identity] = id[b.m * a.m^-1].
+                let perm = b.m.compose(&a.m.inverse());
 
                 let proven_perm = ProvenPerm {
                     elem: perm,
